@@ -273,4 +273,33 @@ def support(rng, tier):
                         dict(method=method, n_cond=int(nc), perm=[int(x) for x in perm])))
             s_obj = compare(RDMs(A), RDMs(B), method, **kw)
             res.append((f'array_eq_rdms_{method}_{rep}', bool(np.allclose(s_obj, s_ab, atol=1e-12)), dict(method=method)))
+        # Bures measures of RDMs in very small units (squared distances of patterns of amplitude 1e-7 and below; exact powers of
+        # two): the similarity does not depend on the unit, is 1 for an RDM with itself and symmetric; the squared metric scales
+        # with the unit (seeded change C03-m7)
+        for e in (-40, -70):
+            sc = 2.0 ** e
+            b0 = compare(A, B, 'bures')
+            b1 = compare(sc * A, sc * B, 'bures')
+            b2 = compare(sc * A, B, 'bures')
+            self1 = np.diag(compare(sc * A, sc * A, 'bures'))
+            ok = (np.allclose(b1, b0, atol=1e-5) and np.allclose(b2, b0, atol=1e-5) and np.allclose(self1, 1.0, atol=1e-5)
+                  and np.allclose(b1, compare(sc * B, sc * A, 'bures').T, atol=1e-5))
+            res.append((f'bures_unit_invariant_2^{e}_{rep}', bool(ok),
+                        dict(method='bures', scale=sc, A=A.tolist(), B=B.tolist(), at_unit_scale=b0.tolist(), scaled_both=np.asarray(b1).tolist(),
+                             scaled_first=np.asarray(b2).tolist(), self_similarity=[float(x) for x in self1])))
+            m0 = compare(A, B, 'bures_metric')
+            m1 = compare(sc * A, sc * B, 'bures_metric')
+            res.append((f'bures_metric_scales_with_unit_2^{e}_{rep}', bool(np.allclose(np.asarray(m1) / sc, m0, rtol=1e-4, atol=1e-5)),
+                        dict(method='bures_metric', scale=sc, at_unit_scale=np.asarray(m0).tolist(), scaled_both_over_scale=(np.asarray(m1) / sc).tolist())))
+        # Kendall tau-a on long vectors (more than 16 entries, where NumPy's default sort is no longer an insertion sort) with ties
+        # in both RDMs: the concordance-count definition, symmetry (seeded change C03-m8)
+        nl = 7 + rs.randint(0, 2)
+        ml = nl * (nl - 1) // 2
+        X = rs.randint(0, 4, size=(2, ml)).astype(float)
+        Y = rs.randint(0, 4, size=(2, ml)).astype(float)
+        got = compare(X, Y, 'tau-a')
+        want = np.array([[sum(np.sign(x[i] - x[j]) * np.sign(y[i] - y[j]) for i in range(ml) for j in range(i + 1, ml)) / (ml * (ml - 1) / 2)
+                          for y in Y] for x in X])
+        res.append((f'tau_a_definition_long_tied_{rep}', bool(np.allclose(got, want, atol=1e-12) and np.allclose(got, compare(Y, X, 'tau-a').T, atol=1e-12)),
+                    dict(method='tau-a', X=X.tolist(), Y=Y.tolist(), observed=np.asarray(got).tolist(), definition=want.tolist())))
     return res
